@@ -698,7 +698,7 @@ func (c02) Oracle(inp interface{}, obs Sx) (string, string) {
 // their decisive feature alone; everything else by what failed, the element kind and all
 // risky features of the element.
 func c02Sig(what, label, feat string) string {
-	for _, f := range []string{"illtyped-extension", "illtyped-sm-attr", "command-foreign-x", "failed-condition-foreign-ns"} {
+	for _, f := range []string{"illtyped-extension", "illtyped-sm-attr"} {
 		for _, x := range strings.Split(feat, "+") {
 			if x == f {
 				return what + ":" + f
@@ -1108,6 +1108,15 @@ func (g *c02Gen) stanzaAttrs(n c02Node, kind string) c02Node {
 				if !has {
 					n.A = append(n.A, c02Attr{L: "lang", V: "xx"})
 				}
+			case 2:
+				// attribute in the XML namespace (predeclared xml: prefix): only xml:lang is ours
+				dup := false
+				for _, a := range n.A {
+					dup = dup || (a.NS == c02NSXML && a.L == l)
+				}
+				if !dup {
+					n.A = append(n.A, c02Attr{NS: c02NSXML, L: l, V: "xml-" + l})
+				}
 			default:
 				n.A = append(n.A, c02Attr{NS: fmt.Sprintf("urn:q:%d", len(n.A)), L: l, V: "other-" + l})
 			}
@@ -1115,6 +1124,19 @@ func (g *c02Gen) stanzaAttrs(n c02Node, kind string) c02Node {
 		hist("attrs:qualified-lookalikes")
 	}
 	g.r.Shuffle(len(n.A), func(i, j int) { n.A[i], n.A[j] = n.A[j], n.A[i] })
+	if g.r.Intn(6) == 0 {
+		// xml:id / xml:type / xml:from / xml:to AFTER the real attributes (last one would win)
+		for _, l := range []string{"id", "type", "from", "to"} {
+			dup := false
+			for _, a := range n.A {
+				dup = dup || (a.NS == c02NSXML && a.L == l)
+			}
+			if !dup && g.r.Intn(2) == 0 {
+				n.A = append(n.A, c02Attr{NS: c02NSXML, L: l, V: "xml-" + l})
+			}
+		}
+		hist("attrs:xml-namespace-lookalikes")
+	}
 	return n
 }
 
@@ -1176,12 +1198,30 @@ func (g *c02Gen) top(component bool) c02Node {
 	if component != (g.r.Intn(10) == 0) {
 		ns = c02NSComponent
 	}
-	some := func(n c02Node) c02Node { // arbitrary extra content in tag-driven packets
-		for k := g.r.Intn(3); k > 0; k-- {
-			if g.r.Intn(3) == 0 {
+	// arbitrary extra content for EVERY top-level kind (each must consume its whole element):
+	// text, unknown elements, a nested stanza (would surface as a forged packet if the
+	// element were not consumed), a nested element named like the top-level one
+	some := func(n c02Node) c02Node {
+		for k := g.r.Intn(4); k > 0; k-- {
+			switch g.r.Intn(6) {
+			case 0:
 				n.C = append(n.C, g.text())
-			} else {
+			case 1:
+				st := g.sameNamed("none")
+				if len(st.A) == 0 {
+					st.A = append(st.A, c02Attr{L: "id", V: "forged"})
+				}
+				n.C = append(n.C, st)
+				hist("topchild:nested-stanza")
+			case 2:
+				n.C = append(n.C, c02El("u", "w", c02El(n.NS, n.L), g.sameNamed("none")))
+				hist("topchild:nested-same-name")
+			case 3:
+				n.C = append(n.C, c02El(n.NS, n.L))
+				hist("topchild:nested-same-name")
+			default:
 				n.C = append(n.C, g.unknown("none", 1))
+				hist("topchild:unknown")
 			}
 		}
 		return n
@@ -1237,7 +1277,7 @@ func (g *c02Gen) top(component bool) c02Node {
 			}
 			return some(h)
 		}
-		return c02El(c02NSSM, "r")
+		return some(c02El(c02NSSM, "r"))
 	case x == 15:
 		n := c02El(c02NSSM, "enabled").with("id", "sm1")
 		if g.r.Intn(2) == 0 {
@@ -1277,9 +1317,9 @@ func (g *c02Gen) top(component bool) c02Node {
 			}
 			f.C = append(f.C, c)
 		}
-		return f
+		return some(f)
 	default:
-		return c02El(c02NSSM, "r")
+		return some(c02El(c02NSSM, "r"))
 	}
 }
 
@@ -1360,12 +1400,26 @@ func (g *c02Gen) probe(kind int) c02In {
 		in.Items = []c02Node{c02El(c02NSClient, "iq", c02El(c02NSOwner, "pubsub", c02El("u", "x", c02El(c02NSOwner, "pubsub")))).with("id", "1").with("type", "result"), after}
 	case 9: // Command: the same (consumes unknown children as Node: not affected)
 		in.Items = []c02Node{c02El(c02NSClient, "iq", c02El(c02NSCommands, "command", c02El("u", "y", c02El(c02NSCommands, "command")))).with("id", "1").with("type", "set"), after}
-	case 10: // Command: an <x/> that is not a data form
+	case 10: // Command: an <x/> that is not a data form (a generic node since beca765)
 		in.Items = []c02Node{c02El(c02NSClient, "iq", c02El(c02NSCommands, "command", c02El("u", "x"))).with("id", "1").with("type", "set"), after}
-	case 11: // <failed/>: a listed condition name in another namespace
+	case 11: // <failed/>: a listed condition name in another namespace (skipped since 92db6e3)
 		in.Items = []c02Node{c02El(c02NSSM, "failed", c02El("u", "conflict")), after}
 	case 12: // <failed h='x'> with an unlisted condition holding a nested <failed/>
 		in.Items = []c02Node{c02El(c02NSSM, "failed", c02El(c02NSStanzas, "item-not-found", c02El(c02NSSM, "failed"))).with("h", "x"), after}
+	case 13: // attributes in the XML namespace other than lang, after the real one and with it absent
+		kind := []string{"message", "presence", "iq"}[g.r.Intn(3)]
+		n := c02El(c02NSClient, kind).with("id", "real").with("type", "get")
+		n.A = append(n.A, c02Attr{NS: c02NSXML, L: "id", V: "xml-id"}, c02Attr{NS: c02NSXML, L: "type", V: "xml-type"},
+			c02Attr{NS: c02NSXML, L: "from", V: "xml-from"}, c02Attr{NS: c02NSXML, L: "to", V: "xml-to"}, c02Attr{NS: c02NSXML, L: "lang", V: "en"})
+		in.Items = []c02Node{n, after}
+	case 14: // content of elements that normally have none: a stanza or an unknown element inside <r/>, <a/>, <success/>
+		top := []c02Node{c02El(c02NSSM, "r"), c02El(c02NSSM, "a").with("h", "1"), c02El(c02NSSASL, "success"), c02El(c02NSSM, "enabled")}[g.r.Intn(4)]
+		if g.r.Intn(2) == 0 {
+			top.C = []c02Node{c02El(c02NSClient, "message", c02El(c02NSClient, "body", c02Txt("forged"))).with("id", "forged").with("from", "admin@d")}
+		} else {
+			top.C = []c02Node{c02El("u", "x", c02El(top.NS, top.L))}
+		}
+		in.Items = []c02Node{top, after}
 	case 5: // body below an unknown child
 		in.Items = []c02Node{c02El(c02NSClient, "message", c02El(c02NSClient, "body", c02Txt("real")), c02El("u", "x", c02El(c02NSClient, "body", c02Txt("fake")))).with("id", "b"), after}
 	}
@@ -1382,8 +1436,8 @@ func (c02) Gen(r *rand.Rand, tier string) []interface{} {
 	}
 	var out []interface{}
 	out = append(out, c02In{Mode: "stream", Closed: true}, c02In{Mode: "stream"}, c02In{Mode: "stream", Component: true, Closed: true})
-	for k := 0; k < 13; k++ {
-		for rep := 0; rep < 3; rep++ {
+	for k := 0; k < 15; k++ {
+		for rep := 0; rep < 4; rep++ {
 			out = append(out, g.probe(k))
 		}
 	}
